@@ -54,6 +54,7 @@ REQUIRED = [
     "variant:endpoint",
     "variant:asyncio-adapter",
     "variant:async-tls",
+    "send_after_resume_without_waiters",
     "variant:sync-tls",
 ]
 EXHAUSTIVE = {"quick": False, "thorough": False}
@@ -263,14 +264,48 @@ def run_async_variant(ctx, variant: str, rng: random.Random) -> str | None:
             async def reader():
                 lp = asyncio.get_running_loop()
                 while True:
-                    d = await lp.sock_recv(s, rng.choice([100, 4096, 65536]))
+                    d = await lp.sock_recv(s, rng.choice([100, 4096, 65536]) if "blob" not in st else 65536)
                     if not d:
                         return
                     got.extend(d)
-                    if rng.random() < 0.3:
+                    if rng.random() < 0.3 and ("blob" not in st or inner0.get_write_buffer_size() == 0):
+                        st["reader_napping"] = True
                         await asyncio.sleep(rng.choice([0, 0.25]))
+                        st["reader_napping"] = False
 
+            inner0 = getattr(tr, "_AsyncioTransportStreamSocketAdapter__transport")
+            loop.io_expected = lambda: inner0.get_write_buffer_size() > 0 and "reader_started" in st and not st.get("reader_napping")
+            if rng.random() < 0.4:
+                # a send blocked by a peer that does not read yet is cancelled / times out; once the peer reads again the
+                # following sends must still terminate and arrive behind whatever the interrupted send had queued
+                blob = bytes(rng.randrange(256) for _ in range(64)) * rng.choice([1000, 3000])
+                st["blob"] = blob
+                how = rng.choice(["move_on_after", "timeout", "task-cancel"])
+                ctx.count(f"interrupted_send:{how}")
+                if how == "move_on_after":
+                    with backend.move_on_after(0.5):
+                        await tr.send_all(blob)
+                elif how == "timeout":
+                    try:
+                        with backend.timeout(0.5):
+                            await tr.send_all_from_iterable([blob[:1000], blob[1000:]])
+                    except TimeoutError:
+                        pass
+                else:
+                    tk = asyncio.ensure_future(tr.send_all(blob))
+                    await asyncio.sleep(0.5)
+                    tk.cancel()
+                    await asyncio.gather(tk, return_exceptions=True)
+                st["interrupted_with_queued"] = inner0.get_write_buffer_size()
+            st["reader_started"] = True
             rt = asyncio.ensure_future(reader())
+            if "blob" in st and rng.random() < 0.5:
+                # let the peer drain everything first: the transport is resumed while nobody waits in drain()
+                for _ in range(400):
+                    if inner0.get_write_buffer_size() == 0:
+                        break
+                    await asyncio.sleep(0.05)
+                st["drained_before_next_send"] = inner0.get_write_buffer_size() == 0
             for chunks in seqs:
                 if rng.random() < 0.5:
                     await tr.send_all_from_iterable(iter(chunks))
@@ -318,6 +353,14 @@ def run_async_variant(ctx, variant: str, rng: random.Random) -> str | None:
         return f"unexpected {type(exc).__name__}: {exc}"
     if st.get("queued"):
         return f"send returned with {st['queued']} bytes still queued in user space"
+    if "blob" in st:
+        # the interrupted send may have delivered any prefix of its payload (asyncio flushes what it had queued)
+        head = len(got) - len(expected)
+        if head < 0 or head > len(st["blob"]) or bytes(got[:head]) != st["blob"][:head]:
+            return f"after an interrupted send the peer received {len(got)} bytes: not (a prefix of the interrupted payload) + the {len(expected)} bytes of the later sends"
+        got = got[head:]
+        if st.get("drained_before_next_send"):
+            ctx.count("send_after_resume_without_waiters")
     if bytes(got) != expected:
         return f"peer received {len(got)} bytes, expected {len(expected)} (first difference at {next((i for i in range(min(len(got), len(expected))) if got[i] != expected[i]), min(len(got), len(expected)))})"
     ctx.count("returned_ok")
